@@ -79,22 +79,26 @@ class Built:
         self.objs = {}
         for d in decls:
             k = d[0]
-            if k == "vec":
-                _, name, n, lb, ub = d
-                self.objs["v:" + name] = optyx.VectorVariable(name, n, lb=lb, ub=ub)
+            if k in ("vec", "vec2"):
+                _, name, n, lb, ub = d[:5]
+                dom = d[5] if len(d) > 5 else "continuous"
+                self.objs[("v:" if k == "vec" else "v2:") + name] = optyx.VectorVariable(name, n, lb=lb, ub=ub, domain=dom)
                 for i in range(n):
-                    self.decl_bounds[f"{name}[{i}]"] = (lb, ub)
+                    self.decl_bounds[f"{name}[{i}]"] = (0.0, 1.0) if dom == "binary" else (lb, ub)
             elif k == "mat":
-                _, name, r, c, sym, lb, ub = d
-                self.objs["m:" + name] = optyx.MatrixVariable(name, r, c, lb=lb, ub=ub, symmetric=sym)
+                _, name, r, c, sym, lb, ub = d[:7]
+                dom = d[7] if len(d) > 7 else "continuous"
+                self.objs["m:" + name] = optyx.MatrixVariable(name, r, c, lb=lb, ub=ub, symmetric=sym, domain=dom)
                 for i in range(r):
                     for j in range(c):
                         if not sym or j >= i:
-                            self.decl_bounds[f"{name}[{i},{j}]"] = (lb, ub)
-            elif k == "scalar":
-                _, name, lb, ub = d
-                self.objs["s:" + name] = optyx.Variable(name, lb=lb, ub=ub)
-                self.decl_bounds[name] = (lb, ub)
+                            self.decl_bounds[f"{name}[{i},{j}]"] = (0.0, 1.0) if dom == "binary" else (lb, ub)
+            elif k in ("scalar", "scalar2"):
+                _, name, lb, ub = d[:4]
+                dom = d[4] if len(d) > 4 else "continuous"
+                # "scalar2" / "vec2": a second OBJECT with the same name and the same declaration (a clone)
+                self.objs[("s:" if k == "scalar" else "s2:") + name] = optyx.Variable(name, lb=lb, ub=ub, domain=dom)
+                self.decl_bounds[name] = (0.0, 1.0) if dom == "binary" else (lb, ub)
             elif k == "param":
                 self.objs["p:" + d[1]] = optyx.Parameter(d[1], d[2])
         terms_o = list(spec["objective"]) if spec["objective"] is not None else None
@@ -139,6 +143,10 @@ class Built:
         k = r[0]
         if k == "vec":
             o = self.objs["v:" + r[1]]
+        elif k == "vec2":
+            o = self.objs["v2:" + r[1]]
+        elif k == "slice2":
+            o = self.objs["v:" + r[1]][slice(r[2], r[3], r[4])][slice(r[5], r[6], r[7])]
         elif k == "slice":
             o = self.objs["v:" + r[1]][slice(r[2], r[3], r[4])]
         elif k == "row":
@@ -187,6 +195,15 @@ class Built:
         raise ValueError(k)
 
     def term(self, t):
+        if self.spec.get("share"):
+            # equal sub-term specs become ONE expression object used at several places (a DAG)
+            key = json.dumps(t)
+            if key not in self.cache:
+                self.cache[key] = self._term(t)
+            return self.cache[key]
+        return self._term(t)
+
+    def _term(self, t):
         from optyx.core import vectors as V
         from optyx.core import matrices as M
         from optyx.core.expressions import Constant
@@ -241,6 +258,30 @@ class Built:
             return self.mref(t[1]).trace()
         if k == "scalar":
             return self.objs["s:" + t[1]]
+        if k == "scalar2":
+            return self.objs["s2:" + t[1]]
+        if k == "div":
+            return self.term(t[1]) / t[2]
+        if k == "rsub":
+            return t[1] - self.term(t[2])
+        if k == "radd":
+            return t[1] + self.term(t[2])
+        if k == "cc":
+            return Constant(2) * Constant(3) - sin(Constant(1.0))
+        if k == "zmul":
+            return 0 * self.objs["s:" + t[1]]
+        if k == "pow0":
+            return self.objs["s:" + t[1]] ** 0
+        if k == "mvpsum":
+            v = self.vref(t[1])
+            n = len(v)
+            q = np.array([[float((2 * i + j) % 5 - 2) for j in range(n)] for i in range(max(1, n - 1))])
+            return (q @ v).sum() if t[2] == "lin" else M.MatrixVectorProduct(q, v * v).sum()
+        if k == "rdeep":
+            e = self.term(t[1])
+            for i in range(t[2]):
+                e = 1.0 + e
+            return e
         if k == "elem":
             return self.vref(t[1])[t[2]]
         if k == "melem":
@@ -351,11 +392,64 @@ def observe(built):
     return {"names": names, "bounds": [[None if b is None else float(b) for b in p] for p in bounds], "again": again, "n": nv}
 
 
+def history_check(b, want):
+    """read the variables, THEN edit the problem, read again: the list must follow the edits (no stale answer)"""
+    import optyx
+
+    out = []
+    with warnings.catch_warnings():
+        warnings.simplefilter("ignore")
+        _ = b.problem.variables, b.problem.get_bounds(), b.problem.n_variables
+        extra = optyx.Variable("zz_hist9", lb=1.0, ub=2.0)
+        b.problem.subject_to(2 * extra >= 0)
+        got = [v.name for v in b.problem.variables]
+        w2 = sorted(set(want) | {"zz_hist9"}, key=natural_key)
+        if got != w2 or b.problem.n_variables != len(w2):
+            out.append({"what": "variables not updated after subject_to on a problem whose variables had been read", "got": got[:40], "want": w2[:40]})
+        gb = b.problem.get_bounds()
+        if len(gb) != len(w2) or gb[w2.index("zz_hist9")] != (1.0, 2.0):
+            out.append({"what": "get_bounds not updated after subject_to", "got": str(gb)[:200]})
+        extra2 = optyx.Variable("zz_hist10", lb=None, ub=0)
+        (b.problem.maximize if b.spec.get("maximize") else b.problem.minimize)(extra2 - 1)
+        cvars = []
+        for c in b.con_objs:
+            brute_vars(c.expr, cvars)
+        w3 = sorted({v.name for v in cvars} | {"zz_hist9", "zz_hist10"}, key=natural_key)
+        got3 = [v.name for v in b.problem.variables]
+        if got3 != w3:
+            out.append({"what": "variables not updated after the objective was replaced", "got": got3[:40], "want": w3[:40]})
+    return out
+
+
+def solution_keys(b):
+    """the names under which a solve reports values (scipy.optimize.minimize replaced by a stub that returns x0)"""
+    import optyx.solvers.scipy_solver as SS
+    from scipy.optimize import OptimizeResult
+
+    def stub(fun=None, x0=None, **kw):
+        return OptimizeResult(x=np.asarray(x0, dtype=float), success=True, fun=float(fun(np.asarray(x0, dtype=float))), message="stub", nit=0)
+
+    old = SS.minimize
+    SS.minimize = stub
+    try:
+        with warnings.catch_warnings(), np.errstate(all="ignore"):
+            warnings.simplefilter("ignore")
+            sol = b.problem.solve(method="SLSQP")
+    finally:
+        SS.minimize = old
+    return None if not sol.values else list(sol.values.keys())
+
+
 # ------------------------------------------------------------------ generation of specs
 
 
 def rand_bounds(rng):
-    return rng.choice([(None, None), (0.0, None), (None, 2.5), (-1.0, 1.0), (0.0, 0.0)])
+    return rng.choice([(None, None), (0.0, None), (None, 2.5), (-1.0, 1.0), (0.0, 0.0), (None, None), (0, 10), (1e-300, 1e16), (-1e8, None),
+                       (None, 1e-9), (-3, -3), (-1e17, 1e300)])
+
+
+def rand_domain(rng):
+    return rng.choice(["continuous", "continuous", "continuous", "integer", "binary"])
 
 
 # ---- the name grammar: base names of scalars, vectors AND matrices with digit runs of different lengths, leading
@@ -383,6 +477,8 @@ def name_family(rng):
 
 def element_names(decl):
     k = decl[0]
+    if k in ("vec2", "scalar2"):
+        return []
     if k == "vec":
         return [f"{decl[1]}[{i}]" for i in range(decl[2])]
     if k == "mat":
@@ -729,20 +825,46 @@ def gen_spec(rng, force=None):
     lbx, ubx = rand_bounds(rng)
     for _try in range(50):
         X, Y, A, S, fam = pick_container_names(rng)
-        decls = [["vec", X, n, lbx, ubx], ["vec", Y, rng.randint(1, 4), *rand_bounds(rng)],
-                 ["mat", A, rng.randint(1, 3), rng.randint(1, 3), False, *rand_bounds(rng)],
-                 ["mat", S, rng.randint(1, 3), 0, True, *rand_bounds(rng)], ["param", "p", 1.5]]
+        decls = [["vec", X, n, lbx, ubx, rand_domain(rng)], ["vec", Y, rng.randint(1, 4), *rand_bounds(rng), rand_domain(rng)],
+                 ["mat", A, rng.randint(1, 3), rng.randint(1, 3), False, *rand_bounds(rng), rand_domain(rng)],
+                 ["mat", S, rng.randint(1, 3), 0, True, *rand_bounds(rng), rand_domain(rng)], ["param", "p", 1.5]]
         decls[3][3] = decls[3][2]
-        pool = SCALAR_NAMES + fam + fam
+        # scalar names: the fixed list, the name family, and "foreign" names that sort INSIDE / next to the vector's span
+        foreign = [f"{X}[{n + rng.randint(0, 3)}]", f"{X}[{rng.randint(0, n)}", f"{X}[{rng.randint(0, n)}]b", f"{X}[{rng.randint(0, 2)},0]",
+                   f"{A}[0,{decls[2][3] + 1}]", f"{X}[0{rng.randint(0, n)}]"]
+        pool = SCALAR_NAMES + fam + fam + foreign + foreign
         scal = rng.sample(sorted(set(pool)), rng.randint(2, 6))
         for s in scal:
-            decls.append(["scalar", s, *rand_bounds(rng)])
+            decls.append(["scalar", s, *rand_bounds(rng), rand_domain(rng)])
+        if rng.random() < 0.15:
+            decls.append(["scalar2", scal[0], *decls[-len(scal)][2:]])        # a clone of the first scalar: same name, same declaration
+        if rng.random() < 0.15:
+            decls.append(["vec2", X, n, lbx, ubx, decls[0][5]])
         if names_unique(decls):
             break
     nA_r, nA_c, nS = decls[2][2], decls[2][3], decls[3][2]
 
+    has_s2 = any(d[0] == "scalar2" for d in decls)
+    has_v2 = any(d[0] == "vec2" for d in decls)
+
     def a_vref():
         c = rng.random()
+        if has_v2 and c < 0.1:
+            return ["vec2", X]
+        if c < 0.08 and n >= 2:
+            # a slice of a slice
+            for _ in range(20):
+                a_, s_ = rng.choice([None, 0, 1, -2]), rng.choice([None, 1, 2, -1])
+                inner = range(n)[slice(a_, None, s_)]
+                a2, s2 = rng.choice([None, 0, 1]), rng.choice([None, 1, -1, 2])
+                if len(inner) and len(inner[slice(a2, None, s2)]):
+                    return ["slice2", X, a_, None, s_, a2, None, s2]
+        if c < 0.14 and nA_c >= 1:
+            t_ = (rng.choice([None, 0]), None, rng.choice([None, -1, 2]))
+            return ["rowslice", ["mat", A], rng.randint(0, nA_r - 1), *t_]
+        if c < 0.18:
+            t_ = (rng.choice([None, 0]), None, rng.choice([None, -1, 2]))
+            return ["colslice", ["mat", S], *t_, rng.randint(0, nS - 1)]
         if c < 0.25:
             return ["vec", X]
         if c < 0.5:
@@ -785,8 +907,33 @@ def gen_spec(rng, force=None):
             return ["neg", ["dotself", v]]
         return ["sub", ["lc", v], ["const", 3.0]]
 
+    def wrap(t, depth=2):
+        """nested wrappers (±const, k·, /k, neg, const − ·, square, deep chains) around a node"""
+        for _ in range(rng.randint(0, depth)):
+            c = rng.random()
+            t = (["mul", 2.0, t] if c < 0.15 else ["rmul", -0.5, t] if c < 0.3 else ["div", t, 4.0] if c < 0.42 else ["rsub", 3.0, t] if c < 0.54
+                 else ["radd", 1.0, t] if c < 0.64 else ["neg", t] if c < 0.76 else ["sq", t] if c < 0.84 else ["add", t, ["cc"]] if c < 0.9
+                 else ["deep", t, rng.choice([3, 399, 400, 401])] if c < 0.96 else ["rdeep", t, rng.choice([3, 300])])
+        return t
+
+    _vector_term = vector_term
+
+    def vector_term(v):                                                    # noqa: F811
+        c = rng.random()
+        if c < 0.08:
+            return ["mvpsum", v, "lin"]
+        return wrap(_vector_term(v)) if c < 0.45 else _vector_term(v)
+
     def general_term():
         c = rng.random()
+        if has_s2 and c < 0.06:
+            return ["scalar2", scal[0]]
+        if c < 0.03:
+            return ["zmul", rng.choice(scal)]
+        if c < 0.06:
+            return ["pow0", rng.choice(scal)]
+        if c < 0.08:
+            return ["mvpsum", a_vref(), "sq"]
         if c < 0.3:
             return vector_term(a_vref())
         if c < 0.4:
@@ -844,7 +991,8 @@ def gen_spec(rng, force=None):
             obj = None if cons else obj
         if rng.random() < 0.06:
             obj = [["deep", ["scalar", scal[0]], 450], ["scalar", scal[-1]]]
-    return {"kind": kind, "decls": decls, "objective": obj, "constraints": cons, "maximize": rng.random() < 0.3}
+    return {"kind": kind, "decls": decls, "objective": obj, "constraints": cons, "maximize": rng.random() < 0.3,
+            "share": rng.random() < 0.3}
 
 
 FIXED_SPECS = [
@@ -933,6 +1081,7 @@ def run(ctx) -> core.Report:
     import optyx
 
     lines, metas = [], []
+    rep.mismatch_specs = []
     for si, spec in enumerate(specs):
         want0 = None
         for o in orders:
@@ -971,6 +1120,21 @@ def run(ctx) -> core.Report:
                                             "bounds": got["bounds"][:10]})
             if len(want) >= 2:
                 rep.nontrivial.add(json.dumps(spec, sort_keys=True))
+            # further outcome channels / histories on a sample of the specs
+            if o == 2 and si % 4 == 0 and b.objective is not None and want:
+                try:
+                    keys = solution_keys(b)
+                except Exception as ex:  # noqa: BLE001
+                    keys = f"{type(ex).__name__}: {ex}"[:160]
+                rep.histogram["channel:solution-keys"] = rep.histogram.get("channel:solution-keys", 0) + 1
+                if keys != want:
+                    rep.oracle_failures.append({"what": "keys of Solution.values differ from the problem's variables", "spec": spec, "order": o,
+                                                "got": keys if isinstance(keys, str) else (keys or [])[:40], "want": want[:40]})
+            if o == 3 and si % 3 == 0:
+                rep.histogram["history:edit-after-read"] = rep.histogram.get("history:edit-after-read", 0) + 1
+                for f in history_check(b, want):
+                    f.update({"spec": spec, "order": o, "history": True})
+                    rep.oracle_failures.append(f)
             # --- model lines (first two orders only: the structure is the same up to ids)
             if o in (0, 1):
                 ids = Ids()
@@ -1022,6 +1186,7 @@ def run(ctx) -> core.Report:
             # which path did the real code take?
             real_path = real_route(a)
             if rest != impl or path != real_path:
+                rep.mismatch_specs.append(a.spec)
                 rep.corr_mismatches.append({"what": "pvars", "impl": real_path + " " + impl[:300], "model": model[:300], "spec": a.spec})
         elif what == "bounds":
             impl = "(" + " ".join("(" + " ".join("None" if x is None else rat(x) for x in p) + ")" for p in b["bounds"]) + ")"
@@ -1091,9 +1256,16 @@ def real_route(b):
 
 def search(ctx, rep):
     rng = core.Rng(ctx["seed"] + 32452843)
-    for i in range(4000):
-        spec = gen_spec(rng)
-        for o in (0, 1, 2, 3, 4):
+    # first the specs on which model and implementation disagreed (more construction orders), then fresh ones
+    first, seen = [], set()
+    for sp in getattr(rep, "mismatch_specs", []):
+        k = json.dumps(sp, sort_keys=True)
+        if k not in seen:
+            seen.add(k)
+            first.append(sp)
+    for i in range(len(first[:400]) + 4000):
+        spec = first[i] if i < len(first[:400]) else gen_spec(rng)
+        for o in ((0, 1, 2, 3, 4, 5, 6, 7) if i < len(first[:400]) else (0, 1, 2, 3, 4)):
             try:
                 b = Built(spec, o)
                 want, _ = expected_names(b)
@@ -1127,6 +1299,14 @@ def replay(payload) -> bool:
         return r.get("names") == want
     b = Built(spec, o)
     want, _ = expected_names(b)
+    if f.get("history"):
+        fs = history_check(b, want)
+        print(fs)
+        return not fs
+    if "Solution.values" in f.get("what", ""):
+        keys = solution_keys(b)
+        print("keys", keys, "\nwant", want)
+        return keys == want
     got = observe(b)
     wb = [[None if x is None else float(x) for x in b.decl_bounds.get(nm, ("?", "?"))] for nm in got["names"]]
     print("got ", got["names"], "\nwant", want, "\nbounds", got["bounds"], "\nwant", wb)
